@@ -464,19 +464,22 @@ func run(r *report.Run, shard, nshards int, replayFile string) {
 		return
 	}
 	end := r.Deadline(165*time.Second, 24*time.Minute)
-	start := time.Now()
-	total := end.Sub(start)
-	var wsum, cum float64
+	var wrest float64
 	for _, j := range jobs {
-		wsum += j.weight
+		wrest += j.weight
 	}
+	e.cnt["activations_of_noncanonical_licence_by_signed_tx"] = 0
 	for _, j := range jobs {
-		cum += j.weight
 		spec := e.spec(j, shard, nshards)
-		spec.Deadline = start.Add(time.Duration(float64(total) * cum / wsum))
-		if !e.thorough {
-			spec.Deadline = end // the quick searches are sized to complete: no time slices
+		// thorough: every search gets its weight's share of the time that is left when it starts
+		// (searches that finish early pass their time on); quick searches are sized to complete
+		spec.Deadline = end
+		if e.thorough {
+			if left := time.Until(end); left > 0 {
+				spec.Deadline = time.Now().Add(time.Duration(float64(left) * j.weight / wrest))
+			}
 		}
+		wrest -= j.weight
 		e.al = j.al
 		t0 := time.Now()
 		res := explore.Run(r, spec)
@@ -523,7 +526,7 @@ func (e *env) jobs() []job {
 	if !e.thorough {
 		return []job{
 			{sc[E], red, 4, 1}, {sc[T], con, 3, 2}, {sc[A2], rnd, 4, 3}, {sc[C], red, 3, 2}, {sc[B], red, 4, 5}, {sc[A], red, 4, 7},
-			{sc[A], full, 3, 5},
+			{sc[A], full, 2, 5}, // the full product at depth 3–4 is the thorough tier's
 		}
 	}
 	return []job{
